@@ -380,6 +380,8 @@ func wildLeaves() []Tree {
 		ln([]int{3, 3}, []int{3, 3}), ln([]int{1, 1}, []int{1, 1}, []int{1, 1}), ln([]int{3, 1}, []int{3, 1}), // all positions equal
 		rc(2, 1, 4, 1), rc(1, 2, 1, 4), rc(3, 3, 3, 3), rc(1, 1, 1, 1), rc(1, 1, 5, 5), rc(0, 0, 6, 6), rc(2, 2, 4, 4), rc(0, 0, 6, 0), rc(0, 0, 1, 1),
 		pt(3, 1), pt(3, 3), pt(1, 1), pt(0, 0), pt(7, 7), {Kind: "SimplePoint", P: []int{5, 3}},
+		// high latitudes (partners of the circle centred at (3,80), whose rectangle is far from a disc there)
+		pt(3, 85), pt(25, 83), pt(-18, 84), {Kind: "SimplePoint", P: []int{30, 80}}, ln([]int{0, 81}, []int{6, 84}), rc(2, 83, 4, 84),
 		{Kind: "MultiPoint", Pts: [][]int{{3, 3}, {3, 1}}}, {Kind: "MultiPoint", Pts: [][]int{{0, 0}, {6, 6}}},
 		{Kind: "GeometryCollection", Kids: []Tree{holed, plug}}, {Kind: "Feature", Kids: []Tree{holed}},
 		{Kind: "MultiLineString", Rings: [][][]int{{{1, 1}, {5, 1}}, {{5, 1}, {5, 5}}}},
@@ -414,6 +416,7 @@ func equivalents(t Tree) []Tree {
 	// a Feature around a collection is the known finding KF-C09-feature-parts (judged against L1 / L2 in the relation rows)
 	if t.Kind != "Feature" && !strings.HasPrefix(t.Kind, "Multi") && !strings.HasSuffix(t.Kind, "Collection") {
 		out = append(out, Tree{Kind: "Feature", Kids: []Tree{t}})
+		out = append(out, Tree{Kind: "Feature", Kids: []Tree{{Kind: "Feature", Kids: []Tree{t}}}}) // a Feature around a Feature
 	}
 	return out
 }
@@ -438,6 +441,14 @@ func wildLaws(ev *Events, emitLaw func(ta, tb Tree, a, b geojson.Object)) (laws,
 		}
 		return s
 	}
+	// partners that are not wild leaves themselves: circles (the other representations must answer alike against them too)
+	partners := append([]Tree{}, leaves...)
+	pobjs := append([]geojson.Object{}, objs...)
+	for _, ct := range []Tree{{Kind: "Circle", P: []int{3, 80}, R: 600000, Steps: 64}, {Kind: "Circle", P: []int{3, 3}, R: 250000, Steps: 12},
+		{Kind: "Circle", P: []int{0, 89}, R: 900000, Steps: 64}, {Kind: "Circle", P: []int{179, 2}, R: 400000, Steps: 64}} {
+		partners = append(partners, ct)
+		pobjs = append(pobjs, ct.Build(Identity, nil))
+	}
 	for i, ta := range leaves {
 		for j, tb := range leaves {
 			emitLaw(ta, tb, objs[i], objs[j])
@@ -445,8 +456,8 @@ func wildLaws(ev *Events, emitLaw func(ta, tb Tree, a, b geojson.Object)) (laws,
 		}
 		for _, te := range equivalents(ta) {
 			oe := te.Build(Identity, nil)
-			for j, tb := range leaves {
-				r1, r2 := answers(objs[i], objs[j]), answers(oe, objs[j])
+			for j, tb := range partners {
+				r1, r2 := answers(objs[i], pobjs[j]), answers(oe, pobjs[j])
 				e := obj{"op": "equiv", "A": ta.JSON(), "A2": te.JSON(), "B": tb.JSON(), "r1": r1, "r2": r2, "out": "ok"}
 				ev.Emit(e)
 				equivs++
